@@ -105,6 +105,17 @@ def judge(ctx, res, path, query, valid, where, case, cls=None, hs_cls=None):
                 "" if hs_cls else " OUTSIDE the known class")] += 1
             return "200-body-raises"
         return "200"
+    if res.get("clen") is not None and res["body"] is not None and not res["body_exc"]:
+        # a complete HTTP answer: an announced Content-Length is the length of the body in bytes (an HTTP client reads
+        # exactly that many: a shorter count cuts the error document before its closing brace)
+        try:
+            announced = int(res["clen"])
+        except ValueError:
+            announced = -1
+        if announced != len(res["body"]):
+            ctx.oracle_fail("the announced Content-Length is not the length of the body (status %s)" % res["status"], case,
+                            announced, len(res["body"]), cls=cls, size=len(path) + len(query or ""))
+            return "content-length"
     if res["status"] == 500:
         ok = res["cdesc"] == "OPeNDAP_error" and res["body"] is not None
         try:
